@@ -528,4 +528,19 @@ theorem photonsIn_heralds (st : List Nat) : ∀ (hs : List (Nat × Nat)),
       heraldPhotons, List.map_cons, List.sum_cons, List.length_cons]
     exact ⟨trivial, Nat.add_comm _ _⟩
 
+/-! ## memo table -/
+
+theorem findKey_mem {K V : Type} [DecidableEq K] (k : K) (v : V) (t : List (K × V)) :
+    findKey k t = some v → (k, v) ∈ t := by
+  induction t with
+  | nil => simp [findKey]
+  | cons a t ih =>
+    obtain ⟨k', v'⟩ := a
+    unfold findKey
+    by_cases h : k' = k
+    · simp only [h, ↓reduceIte, Option.some.injEq, List.mem_cons, Prod.mk.injEq]
+      intro hv; exact Or.inl ⟨trivial, hv.symm⟩
+    · simp only [h, ↓reduceIte, List.mem_cons, Prod.mk.injEq]
+      intro hv; exact Or.inr (ih hv)
+
 end PM.C09
